@@ -1697,7 +1697,10 @@ gen(Src& s, int size)
           if (s.chance(3, 4))
             pj["tof_mash"] = 0;
           if (s.chance(1, 3))
-            pj["arccorr"] = true; // BackProjectorByBinUsingInterpolation "can only handle arc-corrected data"
+            {
+              pj["arccorr"] = true; // BackProjectorByBinUsingInterpolation "can only handle arc-corrected data"
+              vg::clamp_arccorr_tang(pj, *sc);
+            }
         }
       if (want_otf && scj["geometry"].get<std::string>() == "Cylindrical")
         {
